@@ -1445,6 +1445,19 @@ class Interp:
                     self.raise_exc('TypeError', 'slice indices must be integers', node)
             s = str_term(obj)
             n = z3.Length(s)
+            clo = lo is None or (isinstance(lo, int) and not isinstance(lo, bool))
+            chi = hi is None or (isinstance(hi, int) and not isinstance(hi, bool))
+            if clo and chi:
+                # constant bounds: SMT str.substr already clamps like Python
+                a = 0 if lo is None else lo
+                if a >= 0 and hi is None:
+                    return mk_str(z3.SubString(s, a, n))
+                if a >= 0 and hi >= 0:
+                    return mk_str(z3.SubString(s, a, max(hi - a, 0)))
+                if a >= 0 and hi < 0:
+                    return mk_str(z3.SubString(s, a, n + hi - a))
+                if a < 0 and hi is None:
+                    return mk_str(z3.If(n >= -a, z3.SubString(s, n + a, -a), s))
             start, stop = self.clamp_slice(n, lo, hi)
             ln = z3.If(stop > start, stop - start, z3.IntVal(0))
             return mk_str(z3.SubString(s, start, ln))
